@@ -80,9 +80,10 @@ EnumOK(ev) ==
         e == enc[ev.c + 1]
         target == EnumTargetReadable(db, r, e)
     IN  /\ IsDiscovery(ev.in)
-        /\ IF Support(r) = "no" \/ BadRange(r) THEN ev.visited = <<>> /\ ev.term = "error"
+        /\ IF BadRange(r) THEN ev.visited = <<>> /\ ev.term = "error"
+           ELSE IF Support(r) = "no" THEN ev.visited = <<>> /\ ev.term \in {"error", "not_found"}      \* rejected with any error
            ELSE \/ ev.term \in {"not_found", "end"} /\ ev.visited = target      \* every match exactly once, ascending
-                \/ Support(r) = "may" /\ ev.term = "error" /\ ev.visited = <<>>
+                \/ Support(r) = "may" /\ ev.term \in {"error", "not_found"} /\ ev.visited = <<>>
                 \/ /\ r.op = OpReadByType /\ ev.term = "error"                    \* stopped by an unreadable attribute
                    /\ \E i \in 1..Len(Matching(db, r)) : ~Readable(Matching(db, r)[i], e)
                    /\ IsPrefixOf(ev.visited, target)
@@ -110,9 +111,17 @@ Explain(ev) ==
 HasFixed == \E i \in 1..Len(db) : db[i].fixed
 CtxIdx(i)  == IF \E j \in 1..Len(db) : db[j].kind = "include" /\ j <= i THEN "inc" ELSE IF HasFixed THEN "fixed" ELSE "plain"
 CtxHandle(h) == IF \E j \in 1..Len(db) : db[j].kind = "include" /\ db[j].h <= h THEN "inc" ELSE IF HasFixed THEN "fixed" ELSE "plain"
+\* for discovery requests: "inc" = the table contains an include declaration (the real server's table then differs
+\* from the prescribed one, known C04 defect, and every discovery answer may be affected), "std" otherwise
+CtxTable == IF \E j \in 1..Len(db) : db[j].kind = "include" THEN "inc" ELSE "std"
 KindAt(h) == IF HasAttr(db, h) THEN db[AttrAt(db, h)].kind ELSE "none"
 OpName(op) == CASE op = OpFindInfo -> "FindInformation" [] op = OpReadByType -> "ReadByType"
                 [] op = OpReadByGroupType -> "ReadByGroupType" [] op = OpFindByTypeValue -> "FindByTypeValue" [] OTHER -> "Other"
+\* Read By Type is diagnosed per width of the requested type: t128 = a 128 bit UUID that is no alias of a 16 bit one
+IsBaseAlias(u) == Len(u) = 16 /\ Expand(SubSeq(u, 13, 14)) = u
+OpNameT(in) == IF in[1] = OpReadByType
+               THEN "ReadByType:" \o (IF Len(in) = 21 /\ ~IsBaseAlias(SubSeq(in, 6, 21)) THEN "t128" ELSE "t16")
+               ELSE OpName(in[1])
 
 Why(ev) ==
     CASE ev.e = "Reset" -> <<"Reset", "decl", IF WellFormedDecl(ev.decl) THEN {"smtu"} ELSE {"declaration_not_well_formed"}>>
@@ -128,7 +137,7 @@ Why(ev) ==
       [] ev.e = "Mtu" -> <<"Mtu", "plain", {"mtu"}>>
       [] ev.e = "Req" ->
             IF ~IsDiscovery(ev.in) THEN <<"Req", "plain", {"not_a_discovery_request"}>>
-            ELSE <<OpName(ev.in[1]), "mtu" \o (IF mtu[ev.c + 1] = 23 THEN "23" ELSE "big"),
+            ELSE <<OpNameT(ev.in), CtxTable,
                    IF ev.mtu # mtu[ev.c + 1] THEN {"mtu_changed"} ELSE Diagnose(db, ev.in, ev.out, mtu[ev.c + 1], enc[ev.c + 1])>>
       [] ev.e = "Enum" ->
             IF ~IsDiscovery(ev.in) THEN <<"Enum", "plain", {"not_a_discovery_request"}>>
@@ -136,11 +145,11 @@ Why(ev) ==
                      target == EnumTargetReadable(db, r, enc[ev.c + 1])
                      ts == {target[i] : i \in 1..Len(target)}
                      vs == {ev.visited[i] : i \in 1..Len(ev.visited)}
-                 IN  <<"Enum:" \o OpName(ev.in[1]), "mtu" \o (IF mtu[ev.c + 1] = 23 THEN "23" ELSE "big"),
+                 IN  <<"Enum:" \o OpNameT(ev.in), CtxTable,
                        (IF ts \ vs # {} THEN {"missed"} ELSE {}) \cup (IF vs \ ts # {} THEN {"extra"} ELSE {})
                        \cup (IF Cardinality(vs) # Len(ev.visited) THEN {"duplicate"} ELSE {})
                        \cup (IF \E i \in 1..(Len(ev.visited) - 1) : ev.visited[i] >= ev.visited[i + 1] THEN {"order"} ELSE {})
-                       \cup {"term_" \o ev.term}>>
+                       \cup (IF ev.term \in {"not_found", "end"} THEN {} ELSE {"term_" \o ev.term})>>
       [] OTHER -> <<ev.e, "plain", {"unknown_event"}>>
 
 \* ---------------------------------------------------------------------------- trace automaton (spec/README.md contract)
